@@ -759,6 +759,10 @@ def runOp (sc : Scen) (j : Json) : P Json := do
       | some (_, c) =>
         let explicit ← jbool (jfieldD j "explicit_hash" (.bool false))
         let act := (Facts.hashAction.lookup (c.opts.unsafeHash, c.opts.eq, c.opts.frozen, explicit)).getD "?"
+        -- a class body that writes `__eq__` but no `__hash__` already carries Python's implicit `__hash__ = None`:
+        -- "leave" and "set to None" are then the same observable state
+        let explicitEq ← jbool (jfieldD j "explicit_eq" (.bool false))
+        let act := if explicitEq && !explicit && (act == "leave" || act == "setNone") then "noneImplicit" else act
         if act == "exception" then pure (Json.mkObj [("classError", "TypeError")])
         else pure (Json.mkObj [("class", classJson c), ("hashAction", .str act)])
       | none => throw "no decls"
